@@ -117,7 +117,7 @@ def run(m, chk):
         "no in-place KnotVector mutator applied to a shared knot vector, no in-place operation on stored control point objects. "
         "The value-level clause (the curve evaluates on its whole interval) is not decided."
     )
-    chk.decides = ["ONE-COMMIT (the degree setter delegates to one committing call per path, never in a loop)", "TUPLE-MUTATE (no list-only method is called on a value that is a tuple on every path under the validating setters: the refusal is the ValueError that was meant)", "LEN-WEIGHTS (a weight vector of the wrong length is refused — by an explicit test or by a shape-checking contraction — before it is stored)", "invariant funnel (who-may-write + guard dominance)", "COMMIT-LAST for Curve mutators", "PURE/FRESH for non-mutating operations", "shared KnotVector never mutated by curve code", "NO-INPLACE-ELEM", 'PRECHECK', 'PRECHECK-LEN', 'KV-CONSISTENT (rebinding the knot vector leaves no stale control points / weights)']
+    chk.decides = ["COMMIT-LOOP (a composite that commits step by step until the step is refused lets nothing but that refusal happen between two commits: the elements of a caller's sequence are probed before the first step, and no knot-vector method under the step refuses a request with an assert)", "ONE-COMMIT (the degree setter delegates to one committing call per path, never in a loop)", "TUPLE-MUTATE (no list-only method is called on a value that is a tuple on every path under the validating setters: the refusal is the ValueError that was meant)", "LEN-WEIGHTS (a weight vector of the wrong length is refused — by an explicit test or by a shape-checking contraction — before it is stored)", "invariant funnel (who-may-write + guard dominance)", "COMMIT-LAST for Curve mutators", "PURE/FRESH for non-mutating operations", "shared KnotVector never mutated by curve code", "NO-INPLACE-ELEM", 'PRECHECK', 'PRECHECK-LEN', 'KV-CONSISTENT (rebinding the knot vector leaves no stale control points / weights)']
     chk.not_decided = ["the curve evaluates on its whole interval", "len(ctrlpoints)=npts as a value-level fact beyond the guarded setter"]
     chk.assume("a setter's validation of an already computed value of the right length is not modelled as a failure point")
     chk.assume("numpy functions and user supplied callables do not modify their arguments; copy() of a user point yields an independent object")
@@ -188,8 +188,9 @@ def run(m, chk):
         chk.ob("ONE-COMMIT", f"{dsq}: `{seg(c_.node, 40)}` is a single committing call", not in_loop, loc=r.loc(dctx, c_.node),
                detail="" if not in_loop else f"{dsq}: `{seg(c_.node, 40)}` is called in a loop: every call commits on its own, so a request that is refused at a later step (the true degree lies between the current and the requested one) raises ValueError after the earlier steps were already committed — the curve is left at an intermediate degree",
                func=dsq, construct="committing operation repeated in a loop")
-    from .extra import len_weights
+    from .extra import commit_loop, len_weights
 
+    commit_loop(r, chk, ["curves.Curve.knot_clean", "curves.Curve.degree_clean"])
     len_weights(r, chk)
     from .extra import kv_consistent, precheck_len, precheck_weights
 
